@@ -287,6 +287,13 @@ class Gen:
                     if "dummy_proc_optional" not in self.excl and ch.bool(1, 2):
                         # an attribute statement for the dummy procedure
                         p["decls"].append({"d": "stmt", "kw": "optional", "rest": ch.choice([" :: ", " "]) + a})
+                elif not in_interface and not p.get("_pure") and not p.get("_elemental") and ch.bool(1, 12) \
+                        and "dummy_proc_external" not in self.excl:
+                    # a dummy function declared by its type and the EXTERNAL attribute
+                    d = self._simple_decl({"base": ch.choice(["integer", "real"]), "kind": None}, a)
+                    d["attrs"] = ["external"]
+                    d["no_stmt"] = True
+                    p["decls"].append(d)
                 else:
                     p["decls"].append(self.var_decl(p, "arg", names=[a], arg=True))
         if k == "function":
